@@ -28,6 +28,10 @@ pub trait KeyColl: KeyExpCollection<XKey, i32, i32> + Sized {
     fn stored(&self) -> Option<Vec<(i32, i32)>> {
         None
     }
+    /// (tree) the collection put into a given arena state through the `verif_load` hook
+    fn from_snap(_s: &Snap) -> Option<Self> {
+        None
+    }
 }
 
 impl KeyColl for KeyExpTree<XKey, i32, i32> {
@@ -113,6 +117,15 @@ impl KeyColl for KeyExpTree<XKey, i32, i32> {
             stack.push((n.right, d + 1));
         }
         Some(out)
+    }
+    fn from_snap(s: &Snap) -> Option<Self> {
+        use i_tree::key::verif::{VerifNode, VerifSnapshot};
+        let nodes = s
+            .nd
+            .iter()
+            .map(|n| VerifNode { parent: u32r(n[0]), left: u32r(n[1]), right: u32r(n[2]), red: n[3] != 0, key: inst::stored(n[4] as i32, n[6] as i32), val: n[5] as i32 })
+            .collect();
+        Some(KeyExpTree::verif_load(VerifSnapshot { root: u32r(s.root), nodes, unused: s.free.clone(), unused_capacity: s.ucap }))
     }
 }
 
@@ -368,6 +381,26 @@ impl<'a, C: KeyColl> KeySession<'a, C> {
         self.tr.line(&format!("\"ev\":\"load\",\"coll\":\"{}\",\"cap\":{},\"now\":{},\"path\":\"{}\",{}", C::NAME, cap, self.now, ptxt.join(";"), snap));
     }
 
+    /// start of a one-step segment: the tree is put into the given arena state through the
+    /// `verif_load` hook (a start state of IndKey.tla, or the `load` event of a replay file)
+    pub fn load_snap(&mut self, snap: &Snap, cap: usize, now: i32) -> bool {
+        assert!(C::HAS_SNAP);
+        self.cap = cap;
+        self.mine.clear();
+        self.now = now;
+        self.tr.pre("\"op\":\"load-snap\",\"out\":\"aborted\"");
+        match observe(0, || C::from_snap(snap)).out {
+            Outcome::Ok(Some(c)) => {
+                self.mine = c.stored().unwrap_or_default();
+                self.c = Some(c);
+            }
+            _ => return false,
+        }
+        let snapj = self.c.as_ref().unwrap().snap_json();
+        self.tr.line(&format!("\"ev\":\"load\",\"coll\":\"{}\",\"cap\":{},\"now\":{},\"path\":\"\",\"ind\":1,{}", C::NAME, cap, now, snapj));
+        true
+    }
+
     /// performs one call on the real collection and logs it; returns false when the
     /// collection was consumed (export) or cannot be used further
     pub fn apply(&mut self, op: &KOp, arm: u64) -> bool {
@@ -501,6 +534,60 @@ impl<'a, C: KeyColl> KeySession<'a, C> {
     }
 }
 
+/// where a fan-out segment starts: the end of a path (re-created by replay), or a loaded arena state
+pub enum Start<'p> {
+    Path(&'p [KOp], usize),
+    State(&'p Snap, i32),
+}
+
+fn reload<C: KeyColl>(s: &mut KeySession<C>, start: &Start) {
+    match start {
+        Start::State(snap, now) => {
+            s.load_snap(snap, 0, *now);
+        }
+        Start::Path(path, cap) => {
+            if C::HAS_SNAP {
+                s.load(path, *cap);
+            } else {
+                s.reset(*cap);
+                let save = s.obs_every;
+                s.obs_every = 0;
+                for op in *path {
+                    s.apply(op, 0);
+                }
+                s.obs_every = save;
+            }
+        }
+    }
+}
+
+/// every call of the alphabet from the state the session is in (`start` re-creates it)
+fn fan_out<C: KeyColl>(s: &mut KeySession<C>, start: &Start, tmax: i32, with_export: bool) {
+    let calls = s.alphabet(tmax, with_export);
+    let mut fresh = true; // the instance is still in the start state
+    let mut base = if C::HAS_SNAP { s.c.as_ref().unwrap().snap_json() } else { String::new() };
+    for call in &calls {
+        let t_ok = call.time().map_or(true, |t| t >= s.now);
+        if !fresh || !t_ok {
+            reload::<C>(s, start);
+            if C::HAS_SNAP {
+                base = s.c.as_ref().unwrap().snap_json();
+            }
+        }
+        let alive = s.apply(call, 0);
+        if !alive {
+            fresh = false;
+            continue;
+        }
+        // keep the instance only if the call left the physical state untouched
+        fresh = if C::HAS_SNAP {
+            !matches!(call, KOp::Ins { .. } | KOp::Clear) && s.c.as_ref().unwrap().snap_json() == base
+        } else {
+            false
+        };
+    }
+}
+
 /// replay TLC-generated paths on the real collection (logged), then fan out the alphabet
 /// from the state each path ends in
 pub fn run_paths<C: KeyColl>(tr: &mut Trace, paths: &[(usize, Vec<KOp>)], keys: i32, tmax: i32, fanout: bool, with_export: bool) {
@@ -518,45 +605,25 @@ pub fn run_paths<C: KeyColl>(tr: &mut Trace, paths: &[(usize, Vec<KOp>)], keys: 
             continue;
         }
         // 2. every call of the alphabet from the state reached
-        let calls = s.alphabet(tmax, with_export);
-        let mut fresh = true; // the instance is still in the state the path leads to
-        let mut base = if C::HAS_SNAP { s.c.as_ref().unwrap().snap_json() } else { String::new() };
-        let base_now = s.now;
-        for call in &calls {
-            let t_ok = call.time().map_or(true, |t| t >= s.now);
-            if !fresh || !t_ok {
-                reload::<C>(&mut s, path, *cap);
-                if C::HAS_SNAP {
-                    base = s.c.as_ref().unwrap().snap_json();
-                }
-            }
-            let alive = s.apply(call, 0);
-            if !alive {
-                fresh = false;
-                continue;
-            }
-            // keep the instance only if the call left the physical state untouched
-            fresh = if C::HAS_SNAP {
-                !matches!(call, KOp::Ins { .. } | KOp::Clear) && s.c.as_ref().unwrap().snap_json() == base
-            } else {
-                false
-            };
-            let _ = base_now;
-        }
+        fan_out::<C>(&mut s, &Start::Path(path, *cap), tmax, with_export);
     }
 }
 
-fn reload<C: KeyColl>(s: &mut KeySession<C>, path: &[KOp], cap: usize) {
-    if C::HAS_SNAP {
-        s.load(path, cap);
-    } else {
-        s.reset(cap);
-        let save = s.obs_every;
-        s.obs_every = 0;
-        for op in path {
-            s.apply(op, 0);
+/// One step of every kind from every start state TLC printed for IndKey.tla: every red-black tree up
+/// to a size x every pattern of expirations 1 / 2, the clock at 0.  The real tree is put into the
+/// state through the load hook; the alphabet ranges over both times.
+pub fn run_ind<C: KeyColl>(tr: &mut Trace, states: &[Snap], with_export: bool) {
+    let mut s: KeySession<C> = KeySession::new(tr, 1, 0, 1);
+    for snap in states {
+        if s.tr.full() {
+            break;
         }
-        s.obs_every = save;
+        if !s.load_snap(snap, 0, 0) {
+            continue;
+        }
+        let top = s.mine.iter().map(|x| x.0).max().unwrap_or(0) + 1;
+        s.keys = top;
+        fan_out::<C>(&mut s, &Start::State(snap, 0), 1, with_export);
     }
 }
 
@@ -568,7 +635,7 @@ pub fn run_faults<C: KeyColl>(tr: &mut Trace, paths: &[(usize, Vec<KOp>)], keys:
         if s.tr.full() {
             break;
         }
-        reload::<C>(&mut s, path, *cap);
+        reload::<C>(&mut s, &Start::Path(path, *cap));
         let calls = s.alphabet(tmax, false);
         let mut dirty = false;
         for call in &calls {
@@ -578,7 +645,7 @@ pub fn run_faults<C: KeyColl>(tr: &mut Trace, paths: &[(usize, Vec<KOp>)], keys:
             let mut j = 1u64;
             loop {
                 if dirty {
-                    reload::<C>(&mut s, path, *cap);
+                    reload::<C>(&mut s, &Start::Path(path, *cap));
                 }
                 dirty = true;
                 if let Some(t) = call.time() {
@@ -762,7 +829,13 @@ pub fn run_replay<C: KeyColl>(tr: &mut Trace, text: &str, keys: i32) {
             }
             Some("load") => {
                 let path: Vec<KOp> = fstr(line, "path").unwrap_or_default().split(';').map(|x| x.trim()).filter(|x| !x.is_empty()).map(KOp::parse).collect();
-                s.load(&path, fnum(line, "cap").unwrap_or(0) as usize);
+                if C::HAS_SNAP && fnum(line, "ind") == Some(1) {
+                    if let Some(snap) = parse_snap(line) {
+                        s.load_snap(&snap, fnum(line, "cap").unwrap_or(0) as usize, fnum(line, "now").unwrap_or(0) as i32);
+                    }
+                } else {
+                    s.load(&path, fnum(line, "cap").unwrap_or(0) as usize);
+                }
                 alive = true;
             }
             Some("op") | Some("call") => {
